@@ -75,10 +75,37 @@ def model_outcome(a):
     return ("bad", a[0][:40])
 
 
-def input_repr(c, fxbytes):
+BATTERY = {"reject": [], "same": []}      # filled by make_battery()
+
+
+def make_battery(fixture_small=None):
+    """the fixed battery every worker re-runs after each input: headers with one invalid field (two values per field)
+    on the synthetic document, and good files whose fresh-process digest is the reference"""
+    from psd_tools.constants import ColorMode
+    base = G.syn_doc(1)
+    inv, _val = G.header_cases({m.value for m in ColorMode})
+    seen = {}
+    rej = []
+    for fld, vn, off, raw in inv:
+        if seen.get(fld, 0) >= 2 or base[off:off + len(raw)] == raw:
+            continue
+        seen[fld] = seen.get(fld, 0) + 1
+        rej.append([f"{fld}={vn}", hx(base[:off] + raw + base[off + len(raw):])])
+    same = [["syn-v1", hx(base)], ["syn-v2", hx(G.syn_doc(2, image_comp=1))]]
+    if fixture_small is not None:
+        same.append([fixture_small.name, hx(fixture_small.read_bytes())])
+    BATTERY["reject"], BATTERY["same"] = rej, same
+    return BATTERY
+
+
+def input_repr(c, fxbytes, sig=None):
     """self-contained description of a case's bytes for a replay file"""
     b = c["b"]
     d = {"why": c["why"], "op": c["op"], "len": len(b), "flags": c["flags"]}
+    then = (c.get("_then") or {}).get(sig)
+    if then:
+        d["sequence"] = "this input, then (same interpreter) the battery item named in `then`"
+        d["then"] = {"name": then, "file": next((h for n, h in BATTERY["reject"] + BATTERY["same"] if n == then), None)}
     if c.get("hostile"):
         d["hostile"] = c["hostile"]
     if len(b) <= HEX_MAX:
@@ -143,6 +170,23 @@ def violations_of(c, r):
     o = om.get("open")
     if not o:
         return out
+    bat = (r.get("export") or {}).get("battery") or om.get("battery")
+    if bat and bat.get("bad"):
+        pred = "rejected-input" if o["k"] != "ok" else "accepted-input"
+        for x in bat["bad"]:
+            obs = {"second_input": x["name"], "second_outcome": x["got"], "fresh_process_outcome":
+                   "rejected" if x["kind"] == "reject" else "opens with digest %s" % x.get("ref"),
+                   "first_input_outcome": o if o["k"] != "ok" else "ok", "detail": x.get("msg")}
+            if x["kind"] == "reject":
+                fld = x["name"].split("=")[0]
+                out.append((f"C06/sequence/header/{fld}-accepted-after-{pred}",
+                            f"in one interpreter: after this input was opened ({pred}), data with an invalid header "
+                            f"({x['name']}) was opened instead of rejected; a fresh interpreter rejects it", obs))
+            else:
+                out.append((f"C06/sequence/reopen-differs-after-{pred}",
+                            f"in one interpreter: after this input was opened ({pred}), the good file {x['name']} "
+                            f"{x['got']}; in a fresh interpreter it opens with digest {x.get('ref')}", obs))
+            c.setdefault("_then", {})[out[-1][0]] = x["name"]
     if o["k"] == "memory":
         out.append((f"C06/open/memory/{o['where']}", "MemoryError (RLIMIT_AS) while opening", o))
     elif o["k"] == "non-exception":
@@ -334,6 +378,36 @@ def gen_stream(ctx, quick, info):
             if len(b) <= 200_000:
                 donors.append((b, sm))
     info["t_trace"] = round(t_trace, 1)
+    # ---- payload interiors: for every reader statement that swallowed an opaque payload in some fixture (<= 300 KB),
+    # ---- a few such payloads (smallest files first) under same-length adversarial overwrites
+    t0 = time.time()
+    from concurrent.futures import ProcessPoolExecutor
+    cands = [p for p in cc.fixtures() if p.stat().st_size <= MODEL_MAX]
+    with ProcessPoolExecutor(min(12, len(cands) or 1)) as ex:
+        idx = list(ex.map(G.index_opaque, cands, chunksize=4))
+    info["t_payload_index"] = round(time.time() - t0, 1)
+    per_feat = {}
+    for (nm, size, sites), p in zip(idx, cands):
+        got = set()
+        for ft, off, ln, lab in sites:
+            if ft in got:
+                continue                      # one payload per (statement, file)
+            got.add(ft)
+            per_feat.setdefault(ft, []).append((p, off, ln, lab))
+    k_pay = 2 if quick else 6
+    n_pay = 0
+    info["payload_kinds"] = {}
+    for ft in sorted(per_feat):
+        for p, off, ln, lab in per_feat[ft][:k_pay]:
+            b = fxbytes.get(p.name)
+            if b is None:
+                b = p.read_bytes()
+                fxbytes[p.name] = b
+            att = G.payload_attacks(b, off, ln, rng, n_random=16 if quick else 60, full=not quick)
+            info["payload_kinds"][lab] = info["payload_kinds"].get(lab, 0) + len(att)
+            for k, (bb, why) in enumerate(att):
+                n_pay += 1
+                yield case(bb, "payload", f"{lab} {why}", fx=p.name, label=lab, force_export=None if k % 20 == 0 else False)
     # ---- random byte strings
     for bb, why in G.random_strings(rng, n["rand"]):
         yield case(bb, "random:" + why.split("[")[0], why)
@@ -361,6 +435,16 @@ def selftest(ctx, pool):
     ctx.extra["watchdog_selftest"] = res
 
 
+def write_battery(pool):
+    import os
+    small = [p for p in cc.fixtures() if p.stat().st_size <= 30000]
+    bat = make_battery(small[0] if small else None)
+    path = os.path.join(pool.tmp, "battery.json")
+    with open(path, "w") as f:
+        json.dump(bat, f)
+    pool.env["C06_BATTERY"] = path
+
+
 def run(ctx):
     quick = ctx.quick
     rng = ctx.rng
@@ -385,7 +469,15 @@ def run(ctx):
                          env={"C06_WARMUP": hx(G.syn_doc(1))})
     try:
         t0 = time.time()
+        write_battery(pool)
         hello = pool.start()
+        ctx.extra["battery"] = {"items": len(BATTERY["reject"]) + len(BATTERY["same"]), "fresh_process_reference": hello.get("battery")}
+        for nm, ref in (hello.get("battery") or {}).items():
+            if any(nm == n for n, _ in BATTERY["reject"]) and not str(ref).startswith("rejected"):
+                ctx.notes.append(f"battery item {nm} is not rejected even by a fresh interpreter ({ref}): left out of the "
+                                 "sequence test (the header section reports it)")
+            if any(nm == n for n, _ in BATTERY["same"]) and str(ref).startswith("raises"):
+                ctx.disagree("a good file of the battery does not open in a fresh interpreter", {"file": nm, "outcome": ref})
         selftest(ctx, pool)
         T["pool_start+selftest"] = round(time.time() - t0, 1)
         _run(ctx, pool, hello, has_cost, T)
@@ -428,7 +520,7 @@ def _run(ctx, pool, hello, has_cost, T):
                     fl |= 2
                 if idx % 20 == 0:
                     fl |= 4
-            c["flags"] = fl
+            c["flags"] = fl | 8
             ln = len(c["b"])
             u = rng.random()
             c["model"] = ln <= MODEL_MAX and (bool(c.get("force_model")) or ln <= 8192 or u < C / ln)
@@ -564,6 +656,7 @@ def _run(ctx, pool, hello, has_cost, T):
     T["watchdog_pool"] = round(t_pool, 1)
     T["model_driver"] = round(t_model, 1)
     T["trace_parse"] = info.get("t_trace")
+    T["payload_index"] = info.get("t_payload_index")
 
     # ---- shrink and report
     t0 = time.time()
@@ -572,7 +665,7 @@ def _run(ctx, pool, hello, has_cost, T):
         # header cases are single-field by construction (and a subset of the bytes would be a different value);
         # a hang costs the full wall-clock limit per probe: both are reported as found
         c2 = c if ("/hang/" in sig or c.get("hdr_invalid")) else shrink(pool, c, sig, fxbytes)
-        ctx.fail(sig, v["what"], input_repr(c2, fxbytes), v["observed"],
+        ctx.fail(sig, v["what"], input_repr(c2, fxbytes, sig), v["observed"],
                  "opening returns a document or raises an ordinary Exception within %.0f s and %d KiB + %d x len(b) of "
                  "resident-set growth; an invalid header is rejected" % (TIMEOUT, RSS_CONST_KB, RSS_FACTOR))
         for f in ctx.failures:
@@ -583,7 +676,8 @@ def _run(ctx, pool, hello, has_cost, T):
     # ---- metadata
     slow, hungry = top10(slow), top10(hungry)
     ctx.extra["stream"] = {"cases": n_cases, "model_cases": n_model, "per_section": dict(sorted(sections.items())),
-                           "fixtures": info.get("fixtures")}
+                           "fixtures": info.get("fixtures"),
+                           "payload_interior_mutants_by_reader_class": info.get("payload_kinds")}
     ctx.extra["watchdog"] = {
         "workers": pool.n, "wall_clock_limit_s": TIMEOUT,
         "hang_rule": "no answer after %.0f s of wall clock during which the worker had the CPU for >= %.0f s; or no answer "
@@ -615,14 +709,24 @@ def _run(ctx, pool, hello, has_cost, T):
                 "RLIMIT_AS = baseline + 1200 MiB, resident-set growth during open above %d KiB + %d x len(b) (the reader "
                 "copies the remainder once per nesting level and the interpreter's recursion limit caps the nesting near "
                 "1000/7 levels), an exception that is not an Exception, or an open() that succeeds on a header with one "
-                "invalid field. Export calls (every 5th opened input: composite/topil; every 20th and all hand-made ones: "
+                "invalid field; SEQUENCES: after every input the same worker re-runs a fixed battery (%d headers with one "
+                "invalid field, %d good files): a header opened instead of rejected, or a good file that raises / opens to a "
+                "different digest (re-written record bytes + layer tree) than in a fresh interpreter, is a violation whose "
+                "failing input is the pair (this input, battery item). PAYLOAD INTERIORS: for every reader statement that "
+                "swallowed an opaque payload (engine data, XMP, ICC, strings, paths, patterns ...) in some fixture <= 300 KB, "
+                "a few such payloads under same-length overwrites (tail behind the first / last occurrence of each token "
+                "start the payload contains x 24 fillers; plain anchors; random anchor x injected prefix x filler x window), "
+                "all enclosing length fields untouched. Export calls (every 5th opened input: composite/topil; every 20th and all hand-made ones: "
                 "also the first 8 layers' topil/numpy) are violations only for crashes, non-Exceptions, and hangs / "
                 "MemoryErrors on files that DECLARE at most 8 MiB of pixels (the compositor's float32 working set is "
-                "proportional to the declared volume, measured at up to ~45 x)" % (C, TIMEOUT, RSS_CONST_KB, RSS_FACTOR))
+                "proportional to the declared volume, measured at up to ~45 x)" % (C, TIMEOUT, RSS_CONST_KB, RSS_FACTOR,
+                                                                                    len(BATTERY["reject"]), len(BATTERY["same"])))
     ctx.trusted_base = ["Lean kernel", "lean/PsdVerif/Model/Psd.lean (hand transliteration of the skeleton readers, checked by "
                         "this correspondence, not proved equal to the Python)", "harness/c06_worker.py + harness/c06_pool.py (the "
                         "watchdog; self-tested on every run against a busy loop, a sleeping process, a segfault, os._exit, a 3 GiB allocation, "
-                        "SystemExit and a 200 MiB resident-set spike)", "harness/lenient_common.py (structural map)",
+                        "SystemExit and a 200 MiB resident-set spike; the battery's reference outcomes are taken by each worker "
+                        "right after start-up and only items that behave there - rejected / same digest twice - are used)",
+                        "harness/lenient_common.py (structural map)",
                         "Linux RLIMIT_AS / VmHWM accounting"]
     ctx.assumptions = ["the property is observed through io.BytesIO (a declared length larger than the data returns only what is "
                        "there)", "time and memory limits are those of this run: 20 s wall clock, RLIMIT_AS baseline + 1200 MiB"]
@@ -697,6 +801,7 @@ def replay(ctx, data):
     b = bytes_of_input(inp)
     pool = c06_pool.Pool(n=1, timeout=TIMEOUT, export_timeout=TIMEOUT, env={"C06_WARMUP": hx(G.syn_doc(1))})
     try:
+        write_battery(pool)
         hello = pool.start()
         flags = inp.get("flags", 7)
         r = pool.one(flags, b)
@@ -713,6 +818,12 @@ def replay(ctx, data):
         if r.get("export"):
             print("export:", {k: (v.get("cls") or v["k"]) for k, v in r["export"]["ops"].items()}, "t=%.2fs" % r["export"].get("t", 0),
                   "rss growth KiB:", r["export"].get("grow_kb"))
+        bat = (r.get("export") or {}).get("battery") or om.get("battery")
+        if bat is not None:
+            print("battery re-run in the same interpreter right after this input: %d items, %d misbehaved (fresh-process "
+                  "reference: %s)" % (bat["ran"], len(bat["bad"]), json.dumps(hello.get("battery"))[:400]))
+            for x in bat["bad"]:
+                print("   ", x)
         for s, what, _ in vs:
             print("VIOLATION-REPRODUCED" if s == sig else "OTHER-VIOLATION", s, "-", what)
         if not vs:
